@@ -197,6 +197,7 @@ func (e *Engine) discharge(cfg SolverCfg) {
 		for sub, o := range parent {
 			o.Secs += sub.Secs
 			switch {
+			case sub.Status == "skipped":
 			case sub.Status == "unsat":
 				if o.Status == "" {
 					o.Status, o.Backend = "unsat", sub.Backend
@@ -285,13 +286,31 @@ func (e *Engine) discharge(cfg SolverCfg) {
 	}
 	// slow pass: portfolio per obligation
 	var wg sync.WaitGroup
+	var pmu sync.Mutex
+	failedParent := map[*Obl]int{}
 	for _, o := range slow {
 		wg.Add(1)
 		solverSem <- struct{}{}
 		go func(o *Obl) {
 			defer wg.Done()
 			defer func() { <-solverSem }()
+			if par := parent[o]; par != nil {
+				// once a path of a split obligation has failed the obligation has failed: do not
+				// spend solver time on its other paths
+				pmu.Lock()
+				n := failedParent[par]
+				pmu.Unlock()
+				if n >= 1 {
+					o.Status, o.Backend = "skipped", "-"
+					return
+				}
+			}
 			e.portfolio(o, cfg)
+			if par := parent[o]; par != nil && o.Status != "unsat" {
+				pmu.Lock()
+				failedParent[par]++
+				pmu.Unlock()
+			}
 		}(o)
 	}
 	wg.Wait()
